@@ -451,7 +451,12 @@ def sgx_certificate(ai: int, npem: int, rs1: int, rs2: int, tail_ok: bool) -> bo
             "quoting_enclave": {"name": "quoting_enclave", "type": "x509_pem", "message": "QUFBQQ==", "signed_by": "platform_ca"},
             "platform_ca": {"name": "platform_ca", "type": "x509_pem", "message": "QkJCQg==", "signed_by": "sgx_root"},
         }
-        return doc["version"] == 2 and doc["targets"] == ["quote"] and els == want
+        # every expected field is there with the expected value (additional fields would not matter to the verifier)
+        for name, w in want.items():
+            g = els.get(name)
+            if g is None or any(g.get(k) != v for k, v in w.items()):
+                return False
+        return doc["version"] == 2 and doc["targets"] == ["quote"]
     return c_boundary(body)(enum(ai, 0, 4), enum(npem, 2, 3), enum(rs1, 0, 2), enum(rs2, 0, 2), True if tail_ok else False)
 
 
